@@ -531,4 +531,214 @@ theorem normList_WF (et : TType) (xs : List WVal) : WFList et xs → WFList et (
 end
 
 
+
+
+/-- every struct-like declares its fields in non-decreasing id order (the common style) -/
+def SortedSchema (P : Prog) : Prop :=
+  ∀ (i : Nat) (sd : StructDef), P.structs[i]? = some sd → sd.fields.Pairwise (fun a b => a.id ≤ b.id)
+
+def SortedW (l : List (Nat × WVal)) : Prop := l.Pairwise (fun a b => unpat 16 a.1 ≤ unpat 16 b.1)
+
+theorem sortW_sorted : ∀ (l : List (Nat × WVal)), SortedW l → sortW l = l := by
+  intro l
+  induction l with
+  | nil => intro _; rfl
+  | cons x r ih =>
+    intro h
+    unfold SortedW at h
+    rw [List.pairwise_cons] at h
+    simp only [sortW]
+    rw [ih h.2]
+    exact insertW_head x r h.1
+
+theorem toWFields_ids (P : Prog) : ∀ (defs : List FieldDef) (vs : List GoVal) (ws : List (Nat × WVal)),
+    toWFields P defs vs = .ok ws → ∀ z ∈ ws, ∃ g ∈ defs, z.1 = pat 16 g.id := by
+  intro defs
+  induction defs with
+  | nil =>
+    intro vs ws h z hz
+    cases vs with
+    | nil => simp only [toWFields] at h; cases h; cases hz
+    | cons v r => simp [toWFields] at h
+  | cons f fs ih =>
+    intro vs ws h z hz
+    cases vs with
+    | nil => simp [toWFields] at h
+    | cons v r =>
+      simp only [toWFields] at h
+      split at h
+      · obtain ⟨g, hg, e⟩ := ih r ws h z hz
+        exact ⟨g, by simp [hg], e⟩
+      · simp only [Res.bind_eq_ok] at h
+        obtain ⟨w, _, ws', h2, h3⟩ := h
+        cases h3
+        simp only [List.mem_cons] at hz
+        rcases hz with rfl | hz
+        · exact ⟨f, by simp, rfl⟩
+        · obtain ⟨g, hg, e⟩ := ih r ws' h2 z hz
+          exact ⟨g, by simp [hg], e⟩
+
+theorem toWFields_sorted (P : Prog) : ∀ (defs : List FieldDef) (vs : List GoVal) (ws : List (Nat × WVal)),
+    toWFields P defs vs = .ok ws → defs.Pairwise (fun a b => a.id ≤ b.id) → (∀ f ∈ defs, -32768 ≤ f.id ∧ f.id < 32768) →
+    SortedW ws := by
+  intro defs
+  induction defs with
+  | nil =>
+    intro vs ws h _ _
+    cases vs with
+    | nil => simp only [toWFields] at h; cases h; exact List.Pairwise.nil
+    | cons v r => simp [toWFields] at h
+  | cons f fs ih =>
+    intro vs ws h hs hr
+    rw [List.pairwise_cons] at hs
+    cases vs with
+    | nil => simp [toWFields] at h
+    | cons v r =>
+      simp only [toWFields] at h
+      split at h
+      · exact ih r ws h hs.2 (fun g hg => hr g (by simp [hg]))
+      · simp only [Res.bind_eq_ok] at h
+        obtain ⟨w, _, ws', h2, h3⟩ := h
+        cases h3
+        unfold SortedW
+        rw [List.pairwise_cons]
+        refine ⟨?_, ih r ws' h2 hs.2 (fun g hg => hr g (by simp [hg]))⟩
+        intro z hz
+        obtain ⟨g, hg, e⟩ := toWFields_ids P fs r ws' h2 z hz
+        simp only [e, unpat_pat16 f.id (hr f (by simp)), unpat_pat16 g.id (hr g (by simp [hg]))]
+        exact hs.1 g hg
+
+theorem normFields_ids : ∀ (l : List (Nat × WVal)), (normFields l).map (·.1) = l.map (·.1) := by
+  intro l
+  induction l with
+  | nil => rfl
+  | cons x r ih => obtain ⟨a, b⟩ := x; simp [normFields, ih]
+
+mutual
+/-- for a schema in id order the standard wire value is already normal -/
+theorem normW_id (P : Prog) (hS : SortedSchema P) (v : GoVal) : ∀ (ty : Ty) (w : WVal), WT P.structs ty v →
+    toW P ty v = .ok w → normW w = w := by
+  intro ty w hwt h
+  cases v with
+  | nil =>
+    cases ty <;> simp only [WT] at hwt <;> simp only [toW, scalarW, Res.ofOption] at h
+    all_goals first
+      | (cases h; simp [normW, normList, normPairs]; done)
+      | skip
+  | bool b =>
+    have hs : scalarW ty (.bool b) = some w := by
+      cases ty <;> first | (simp only [toW, Res.ofOption_eq_ok] at h; exact h) | (simp only [WT] at hwt)
+    cases ty <;> simp [scalarW] at hs <;> subst hs <;> rfl
+  | int x =>
+    have hs : scalarW ty (.int x) = some w := by
+      cases ty <;> first | (simp only [toW, Res.ofOption_eq_ok] at h; exact h) | (simp only [WT] at hwt)
+    cases ty <;> simp [scalarW] at hs <;> subst hs <;> rfl
+  | dbl x =>
+    have hs : scalarW ty (.dbl x) = some w := by
+      cases ty <;> first | (simp only [toW, Res.ofOption_eq_ok] at h; exact h) | (simp only [WT] at hwt)
+    cases ty <;> simp [scalarW] at hs <;> subst hs <;> rfl
+  | bytes x =>
+    have hs : scalarW ty (.bytes x) = some w := by
+      cases ty <;> first | (simp only [toW, Res.ofOption_eq_ok] at h; exact h) | (simp only [WT] at hwt)
+    cases ty <;> simp [scalarW] at hs <;> subst hs <;> rfl
+  | list xs =>
+    cases ty <;> simp only [WT] at hwt
+    · rename_i e
+      simp only [toW, Res.bind_eq_ok] at h
+      obtain ⟨ws, h1, h2⟩ := h
+      cases h2
+      simp [normW, normList_id P hS xs e ws hwt.2 h1]
+    · rename_i e
+      simp only [toW] at h
+      split at h
+      · cases h
+      · simp only [Res.bind_eq_ok] at h
+        obtain ⟨ws, h1, h2⟩ := h
+        cases h2
+        simp [normW, normList_id P hS xs e ws hwt.2 h1]
+  | map kvs =>
+    cases ty <;> simp only [WT] at hwt
+    rename_i k vt
+    simp only [toW, Res.bind_eq_ok] at h
+    obtain ⟨ws, h1, h2⟩ := h
+    cases h2
+    simp [normW, normPairs_id P hS kvs k vt ws hwt.2.1 h1]
+  | strct fs =>
+    cases ty <;> simp only [WT] at hwt
+    rename_i i
+    obtain ⟨sd, hsd, hf⟩ := hwt
+    simp only [toW, Prog.struct?, hsd] at h
+    split at h
+    · cases h
+    · simp only [Res.bind_eq_ok] at h
+      obtain ⟨ws, h1, h2⟩ := h
+      cases h2
+      have e1 := normFields_id P hS fs sd.fields ws hf h1
+      have hr : ∀ f ∈ sd.fields, -32768 ≤ f.id ∧ f.id < 32768 := by
+        intro f hfm
+        have := WTFields_range P.structs sd.fields fs hf
+        have hl := WTFields_length P.structs sd.fields fs hf
+        obtain ⟨j, hj, rfl⟩ := List.getElem_of_mem hfm
+        exact this (sd.fields[j], fs[j]'(by omega)) (by
+          rw [List.mem_iff_getElem]
+          exact ⟨j, by simp [List.length_zip]; omega, by simp⟩)
+      have hsw := toWFields_sorted P sd.fields fs ws h1 (hS i sd hsd) hr
+      simp only [normW, e1, sortW_sorted ws hsw]
+
+theorem normList_id (P : Prog) (hS : SortedSchema P) (xs : List GoVal) : ∀ (e : Ty) (ws : List WVal),
+    WTList P.structs e xs → toWList P e xs = .ok ws → normList ws = ws := by
+  intro e ws hwt h
+  cases xs with
+  | nil => simp only [toWList] at h; cases h; rfl
+  | cons x r =>
+    simp only [WTList] at hwt
+    simp only [toWList, Res.bind_eq_ok] at h
+    obtain ⟨w, h1, ws', h2, h3⟩ := h
+    cases h3
+    simp [normList, normW_id P hS x e w hwt.1 h1, normList_id P hS r e ws' hwt.2 h2]
+
+theorem normPairs_id (P : Prog) (hS : SortedSchema P) (kvs : List (GoVal × GoVal)) : ∀ (k v : Ty) (ws : List (WVal × WVal)),
+    WTPairs P.structs k v kvs → toWPairs P k v kvs = .ok ws → normPairs ws = ws := by
+  intro k v ws hwt h
+  cases kvs with
+  | nil => simp only [toWPairs] at h; cases h; rfl
+  | cons x r =>
+    obtain ⟨a, b⟩ := x
+    simp only [WTPairs] at hwt
+    simp only [toWPairs, Res.bind_eq_ok] at h
+    obtain ⟨wa, h1, wb, h2, ws', h3, h4⟩ := h
+    cases h4
+    simp [normPairs, normW_id P hS a k wa hwt.1 h1, normW_id P hS b v wb hwt.2.1 h2, normPairs_id P hS r k v ws' hwt.2.2 h3]
+
+theorem normFields_id (P : Prog) (hS : SortedSchema P) (vs : List GoVal) : ∀ (defs : List FieldDef) (ws : List (Nat × WVal)),
+    WTFields P.structs defs vs → toWFields P defs vs = .ok ws → normFields ws = ws := by
+  intro defs ws hwt h
+  cases vs with
+  | nil =>
+    cases defs with
+    | nil => simp only [toWFields] at h; cases h; rfl
+    | cons f fs => simp [WTFields] at hwt
+  | cons v vs' =>
+    cases defs with
+    | nil => simp [WTFields] at hwt
+    | cons f fs =>
+      simp only [WTFields] at hwt
+      obtain ⟨hopt, hreq, hid, hrest⟩ := hwt
+      simp only [toWFields] at h
+      split at h
+      · exact normFields_id P hS vs' fs ws hrest h
+      · rename_i hc
+        simp only [Res.bind_eq_ok] at h
+        obtain ⟨w, h1, ws', h2, h3⟩ := h
+        cases h3
+        have hwtv : WT P.structs f.ty v := by
+          by_cases ho : f.req = .optional
+          · rcases hopt ho with hnl | hwv
+            · simp [ho, hnl.2] at hc
+            · exact hwv
+          · exact hreq ho
+        simp [normFields, normW_id P hS v f.ty w hwtv h1, normFields_id P hS vs' fs ws' hrest h2]
+end
+
+
 end Gen.Fast
